@@ -51,8 +51,8 @@ P("C02", "proof", "Lean 4 theorems (decomposition after the prefix = split-based
             "TP.Win.unc_complete_iff", "TP.Win.verbatim_unc_complete_iff", "TP.Win.verbatim_named_iff", "TP.Win.parsePrefix_alts",
             "TP.C02c.verbatim_empty_iff", "TP.C02c.verbatim_UNC_name_iff", "TP.C02c.unc_noshare_iff", "TP.C02c.verbatim_unc_noshare_iff",
             "TP.C02c.prefix_result_classified", "TP.C02c.prefix_none_iff",
-            "TP.Win.stable_verbatimUNC_noshare_sep", "TP.Win.kind_sets_read", "TP.C02e.windows_parser_alts_covered"],
-  modules=["TypedPathVerif.Props.C02b", "TypedPathVerif.Lemmas.WinStable", "TypedPathVerif.Props.C02c", "TypedPathVerif.Props.C02d", "TypedPathVerif.Props.C02e"],
+            "TP.Win.stable_verbatimUNC_noshare_sep", "TP.Win.stable_unc_noshare_sep", "TP.Win.kind_sets_read", "TP.C02e.windows_parser_alts_covered"],
+  modules=["TypedPathVerif.Props.C02b", "TypedPathVerif.Lemmas.WinStable", "TypedPathVerif.Props.C02c", "TypedPathVerif.Props.C02d", "TypedPathVerif.Props.C02e", "TypedPathVerif.Props.C02f"],
   rule=NONTRIV + "non-trivial = prefix or at least two components", design_ref="§5 C02")
 
 P("C03", "proof", "Lean 4 theorems (induction over tokens and over the step list) + model/code correspondence",
@@ -88,8 +88,9 @@ P("C04", "proof", "Lean 4 theorems (acceptance rule, first-offender error, appen
             "TP.C04.checked_error_first", "TP.C04.unix_checked_keeps_base", "TP.C04.unix_checked_empty_base", "TP.C04.windows_K3_witness",
             "TP.unix_push_comps", "TP.C04c.win_checked_keeps_base_pf",
             "TP.C04b.accepted_prefix_free", "TP.C04b.win_checked_keeps_base_prefixed", "TP.Win.win_push_comps_prefixed",
-            "TP.C04c.win_checked_keeps_base_verbatim", "TP.C04c.fold_neverClimbs"],
-  modules=["TypedPathVerif.Lemmas.Append", "TypedPathVerif.Props.C16b", "TypedPathVerif.Props.C04b", "TypedPathVerif.Props.C08c", "TypedPathVerif.Props.C04c"],
+            "TP.C04c.win_checked_keeps_base_verbatim", "TP.C04c.fold_neverClimbs",
+            "TP.C04d.win_checked_keeps_base_verbatim_of_stable", "TP.C04d.win_checked_keeps_base_noshare"],
+  modules=["TypedPathVerif.Lemmas.Append", "TypedPathVerif.Props.C16b", "TypedPathVerif.Props.C04b", "TypedPathVerif.Props.C08c", "TypedPathVerif.Props.C04c", "TypedPathVerif.Props.C04d"],
   rule=NONTRIV + "non-trivial = argument has >= 2 components or is rejected", design_ref="§5 C04")
 
 P("C05", "proof", "Lean 4 theorems (lexicographic total-order laws, eq iff components, the hash index loop = its component-level description) + model/code correspondence incl. exact hasher input",
@@ -174,8 +175,9 @@ P("C08", "proof", "Lean 4 theorems (model push = documented rule table, byte-exa
             "TP.C08.pushes_follow_rules", "TP.C08.win_push_K3_witness", "TP.C08.wPrefix_eq", "TP.C08.wIsOnlyDisk_eq", "TP.C08.hasRoot_no_prefix",
             "TP.Win.win_push_comps_prefixed", "TP.C16b.win_push_comps_pf", "TP.C12c.push_name",
             "TP.C08c.win_push_comps_verbatim", "TP.C08c.fold_keeps_prefix_root", "TP.C08c.fold_vshape", "TP.Win.render_parse",
-            "TP.C08d.win_push_comps_verbatim_any", "TP.C08d.win_push_rooted_onto_verbatim", "TP.C08d.verbatimFold_append"],
-  modules=["TypedPathVerif.Lemmas.WinAppend", "TypedPathVerif.Props.C12c", "TypedPathVerif.Props.C08c", "TypedPathVerif.Lemmas.WinVerbatim", "TypedPathVerif.Props.C08d"],
+            "TP.C08d.win_push_comps_verbatim_any", "TP.C08d.win_push_rooted_onto_verbatim", "TP.C08d.verbatimFold_append",
+            "TP.Win.render_parse_of_stable", "TP.C08e.win_push_comps_verbatim_of_stable", "TP.C08e.win_push_comps_verbatim_noshare"],
+  modules=["TypedPathVerif.Lemmas.WinAppend", "TypedPathVerif.Props.C12c", "TypedPathVerif.Props.C08c", "TypedPathVerif.Lemmas.WinVerbatim", "TypedPathVerif.Props.C08d", "TypedPathVerif.Props.C08e"],
   rule=NONTRIV + "bases x arguments; non-trivial = non-empty argument", design_ref="§5 C08")
 
 P("C09", "proof", "Lean 4 theorems (law B of the back parser, byte-prefix lemma, law R incl. stability of every complete Windows prefix under truncation, ancestors chain with fuel adequacy) + model/code correspondence",
@@ -413,7 +415,7 @@ P("C19", "translation_validation", "conversion chains vs std (implementation vs 
   "regenerated table (regex extraction, trusted), not about the behaviour of the conversions.",
   theorems=["TP.C19.conv_impls_covered", "TP.C19.toStr_some_iff", "TP.C19.toStr_eq", "TP.C19.lossy_valid", "TP.C19.lossy_of_valid",
             "TP.C19.lossy_eq_self_iff", "TP.C19.lossy_idempotent", "TP.C19.toStr_eq_display", "TP.C19.lossy_ascii",
-            "TP.C19.lossy_length_le", "TP.C19.replCount_zero_iff"],
+            "TP.C19.lossy_length_le", "TP.C19.lossy_length_ge", "TP.C19.replCount_zero_iff"],
   modules=["TypedPathVerif.Props.C19b"],
   rule="all byte strings <= 4 over a 9-byte alphabet with valid and invalid UTF-8 sequences; lossy lines: every string <= 3 (thorough 4) over 25 bytes at the class edges of UTF-8 lead / continuation bytes, the UTF-8 and path domains; non-trivial = contains a non-ASCII byte", design_ref="§5 C19")
 
